@@ -230,8 +230,21 @@ def design(pid, tier, ev):
         raise C.MachineryFailure('MC_TreeBuilder does not find the token pass-through counterexample: the model is vacuous')
 
 
+def design_lalrtree(tier, ev):
+    """MC_LALRTree: LALR automaton + value stack + the callback chain = the shaped derivation (catalogue of option-bearing grammars)"""
+    L = 3 if tier == 'quick' else 5
+    res = C.tlc('MC_LALRTree', 'SPECIFICATION Spec\nCONSTANT MaxLen = %d\nINVARIANT AllConflictFree\nINVARIANT AcceptsTheSentences\n'
+                'INVARIANT ReturnsTheShapedDerivation\nCHECK_DEADLOCK FALSE\n' % L, timeout=3000)
+    C.tlc_must_run(res, 'MC_LALRTree')
+    ev.add_tlc('MC_LALRTree MaxLen=%d' % L, res, 'design')
+    if not res.ok:
+        raise C.MachineryFailure('MC_LALRTree: %s violated' % res.violated)
+
+
 def phase(pid, tier, rng, ev, rep, tmp, n_quick=2500, n_thorough=20000):
     design(pid, tier, ev)
+    if pid == 'C03':
+        design_lalrtree(tier, ev)
     cases = [c for c in C.pmap(observe_case, specs(C.scale(n_quick if tier == 'quick' else n_thorough), rng, pp=True if pid == 'C06' else None))
              if not c['skip'] and c['reds']]
     ev.count('builder_grammars', len(cases))
